@@ -1195,9 +1195,31 @@ func (rn *runner) expiryC05(r *rand.Rand, shards int) {
 
 // ---- C13 --------------------------------------------------------------------
 
-func genMulti(r *rand.Rand, kind string, keys []string, uniq string) [][]byte {
+// alien, when not empty, is a key of the group that holds a value of another type: a multi-key command that meets it
+// is refused and must then have changed nothing (no element or member taken from its source).
+func genMulti(r *rand.Rand, kind string, keys []string, uniq string, alien string) [][]byte {
 	c := respc.Cmd
 	a, b := keys[r.Intn(len(keys))], keys[r.Intn(len(keys))]
+	if alien != "" && r.Intn(5) == 0 {
+		dirs := []string{"LEFT", "RIGHT"}
+		switch kind {
+		case "list":
+			if r.Intn(2) == 0 {
+				return c("LMOVE", a, alien, dirs[r.Intn(2)], dirs[r.Intn(2)])
+			}
+			return c("LMOVE", alien, a, dirs[r.Intn(2)], dirs[r.Intn(2)])
+		case "set":
+			if r.Intn(2) == 0 {
+				return c("SMOVE", a, alien, "m"+strconv.Itoa(r.Intn(4)))
+			}
+			return c("SMOVE", alien, a, "m"+strconv.Itoa(r.Intn(4)))
+		default:
+			if r.Intn(2) == 0 {
+				return c("RENAME", a, alien)
+			}
+			return c("MSET", a, uniq, alien, uniq)
+		}
+	}
 	switch kind {
 	case "string":
 		switch r.Intn(8) {
@@ -1269,6 +1291,19 @@ func (rn *runner) historyC13(r *rand.Rand, shards int) {
 			in.Exec(respc.Cmd("SADD", k, "m0", "m1"), nil)
 		}
 	}
+	alien := ""
+	if r.Intn(3) == 0 {
+		alien = "alien:" + keys[0]
+		switch kind {
+		case "list":
+			in.Exec(respc.Cmd("SET", alien, "not-a-list"), nil)
+		case "set":
+			in.Exec(respc.Cmd("RPUSH", alien, "m0", "m1"), nil)
+		default:
+			in.Exec(respc.Cmd("SADD", alien, "not-a-string"), nil)
+		}
+		rn.out.Classes["with a key of another type in the group"]++
+	}
 	before := in.Dump()
 	nClients := 3 + r.Intn(4)
 	perClient := 8 + r.Intn(8)
@@ -1285,7 +1320,7 @@ func (rn *runner) historyC13(r *rand.Rand, shards int) {
 			defer wg.Done()
 			cr := rand.New(rand.NewSource(seeds[ci]))
 			for i := 0; i < perClient; i++ {
-				cmd := genMulti(cr, kind, keys, fmt.Sprintf("c%d-%d", ci, i))
+				cmd := genMulti(cr, kind, keys, fmt.Sprintf("c%d-%d", ci, i), alien)
 				v, call, ret, ok := rn.exec(in, cmd)
 				if !ok {
 					return
